@@ -27,10 +27,12 @@ from harness.common.extract import NotRecognised
 from harness.common.fakeproc import FakeProc, reset_psutil_state
 from harness.common.shrink import ddmin
 from harness.props import c04_fullproc
+from harness.props import c04_scan
 
 PROP = "C04"
 DRIVER_MODULES = ["PsutilModel.Model.C04Gen", "PsutilModel.Model.C04Fine", "PsutilModel.Spec.C04",
-                  "PsutilModel.Model.C04Status", "PsutilModel.Spec.C04Status"]
+                  "PsutilModel.Model.C04Status", "PsutilModel.Spec.C04Status",
+                  "PsutilModel.Model.C04ScanGen", "PsutilModel.Spec.C04Scan"]
 NEEDS_EXT = True
 TRUSTED = [
     "C04 world: the kernel is a process table seen through listdir(/proc), kill(pid,0), the Tgid line of /proc/<pid>/status and the start time in /proc/<pid>/stat; table changes happen between psutil's calls and (for process_iter) right after the listing — not inside a single file read",
@@ -38,11 +40,12 @@ TRUSTED = [
     "C04 status text: int() on the Tgid field is modelled for plain decimal digits (what the kernel prints); a sign, underscores or non-ASCII digits, which Python's int() would also accept, are not generated; the fake status files are rendered by the harness and cross-checked byte for byte against the specification's rendering (driver op status_scan)",
     "C04 harness: thread ids are emulated as directories of the fake root that the wrapped os.listdir hides; the wrapped os.kill converts its argument with the real pid_t converter (os.getsid) before consulting the simulated table (and lets table changes happen right after the probe for _pslinux.pid_exists called on its own)",
     "C04 attrs=[]: the complete fake /proc/<pid> (harness/props/c04_fullproc.py: stat, status, statm, cmdline, environ, io, smaps, smaps_rollup, fd/, fdinfo/, task/, cwd, exe + /proc/meminfo, /proc/net/*) is rendered from proc(5); nice / ionice / cpu_affinity (system calls on the PID) are answered from the simulated table; EACCES is injected at _pslinux.open_binary/open_text, os.readlink, os.listdir (the harness runs as root); only processes that have a status file are used there",
+    "C04 scan world (harness/props/c04_scan.py, Model/C04Scan.lean): within one visit a process only goes alive -> zombie -> gone (a recycled number is another process: the identity machinery); a zombie's /proc/<pid>/stat is always readable and carries the Z (every other entry may give content, nothing, ESRCH, ENOENT or EACCES — all quantified); a live process's entries give content, EACCES or (cmdline / environ) nothing; the state changes between two OS accesses, not inside one; access instants are taken at builtins.open / os.readlink / os.stat / os.lstat on paths below /proc/<pid> (a getter that reached the kernel another way would not be scheduled against); covered getters: the 15 names of fact scanSources (front-end getter only delegates; one read per getter) — exe, name, ppid, username, the memory_full_info / open_files / threads / net_connections families and the syscall getters stay with attrs_all",
     "C04 two threads (harness/props/c04_preempt.py): sys.settrace baton scheduler; scheduling points = every line of process_iter (+ inner add/remove), of the cache_clear lambda and of Process.is_running, every bytecode of those that loads/stores _pmap or _pids_reused and the bytecode after it, entry and _get_ident line of Process._init, item boundaries of the consumer loop; all schedules with <= 2 pre-emptions (thorough; with kernel events on a 1/6 sub-lattice) and item-boundary schedules with 3 pre-emptions; every-bytecode granularity is sampled only; more than two pre-emptions / more than two threads are not explored (the statement-granularity theorems C04_fine_* cover them thread-locally); the values a real generator frame reads (its locals pmap / a / pid / ls at line events, NoSuchProcess exception events, yields at return events, pmap at the `_pmap = pmap` line) are read off the frame by the tracer and fed to the Lean thread model",
 ]
 MANIFEST = {
-    "level_text": "Machine-checked Lean 4 proofs over a model of pids()/pid_exists()/process_iter()/cache_clear()/is_running()'s cache side effect. For every table: pids() is the strictly ascending list of exactly the listed PIDs (C04_pids_sorted_exact, C04_pids_unique; byte level: C04_listing_exact); pid_exists(n) is a bool, True exactly for listed PIDs, for every int n and every well-formed table with threads, foreign processes and broken status files (C04_pidExists_iff). For EVERY history, overlapping generators and both prologue orders included: each generator yields strictly ascending PIDs without duplicates, all from the listing it took, and next() can only yield/stop/raise ValueError (invalid attrs)/IndexError (empty table) (C04_iter_ascending, C04_overlap_safety, C04_yield_was_listed); each next() visits the remaining listed PIDs in order and skips a PID only if it vanished (C04_iter_each_listed_once_repaired: full strength only for a configuration with the REPAIRED prologue order — not the shipped code; C04_iter_each_listed_once_partial for the code as it is when no PID is flagged at the start of the iteration; C04_iter_each_listed_Full_fails_shipped / C04_iteration_complete_Full_fails_shipped: the full clause is REFUTED for the shipped order on the L19 state); info keys are exactly the requested names (C04_info_keys). One WHOLE iteration as one sentence, for any continuation of the history (other generators advancing, table changes inside and between calls, cache_clear, is_running): the PIDs a generator yields are a subsequence of the ascending listing it took and every PID of that listing is yielded, or was absent from the table at one of its next() calls, or is still to be visited; once the generator is exhausted, yielded or vanished (C04_iteration_complete_repaired for the repaired prologue order only, C04_iteration_complete_partial for the code as it is when no PID is flagged at the start, C04_iteration_drained). 'Recycled -> replaced by a fresh object' for the SHIPPED order in its two-iteration form, from any reachable state, kernel events anywhere, any attrs (C04_flagged_iteration_skips: the iteration that starts while a cached PID is flagged never yields it and publishes a _pmap without it — the known finding C04-flagged-pid-skipped characterised in general; C04_uncached_iteration_fresh: an iteration that finds a listed PID uncached yields for it only a reference no object had before, an object of that PID; C04_recycled_replaced_two_iterations: both composed; C04_refines_sequential_from: from any idle reachable state — e.g. the one after the dropping iteration — the code equals the specification machine, so the fresh object is kept). The LIFETIME of a recycled-flag (seeded round 5): every operation other than the first next() of a generator — cache_clear(), next()/close() of generators in flight that republish their private table, is_running(), pids(), pid_exists() — keeps every flagged PID flagged (C04_flag_kept_by_every_other_op, C04_cache_clear_keeps_flags); once is_running() has found an object's PID recycled the PID stays flagged along ANY continuation in which no iteration starts (C04_found_recycled_stays_flagged), the iteration that starts next never yields that stale object, either prologue order, any attrs (C04_found_recycled_never_yielded_again), and for the shipped order iteration n drops the entry and n+1 yields a fresh object (C04_found_recycled_replaced); C04_clear_dropping_flags_counterexample shows what a cache_clear() that also emptied _pids_reused would do (stale object yielded forever); the frame is tied to the source by the obligations cfg_flag_set_ops / cfg_pmap_ops on the facts listing EVERY use of the module globals _pids_reused / _pmap in the package. Object <-> PID: in every reachable state, any configuration, the yielded reference is a live object whose pid is the yielded PID and no reference in _pmap / a suspended generator's map / to-do list dangles or is filed under another PID (C04_yield_object_pid, C04_object_pid_stable; invariant ObjInv). For every SEQUENTIAL history the whole output trace of the model — PIDs, object identities, info keys — equals that of a shared-cache specification machine (C04_refines_sequential, by an abstraction function), whose cache keeps an entry iff its PID is still listed and not flagged, yields the cached object else a fresh one, and is emptied by cache_clear (C04_start_cache, C04_spec_visit, C04_isRunning_flags, C04_cache_clear). The platform functions are covered branch by branch: _psposix.pid_exists (PID 0, ESRCH, EPERM, ok, OverflowError: C04_posix_pidExists_branches), _pslinux.pid_exists called on its own with ANY table changes between the kill probe and the status read (C04_linux_pidExists_two_instants: the answer is right for the table at the probe or at the read; C04_linux_pidExists_iff without changes; C04_platform_eq ties them to the front-end model); bool arguments are ints (C04_pidExists_bool), floats are pinned as outside the statement (C04_pidExists_float: TypeError for positive floats). as_dict's ad_value substitution: keys exactly the requested names, ad_value exactly where the getter raises AccessDenied/ZombieProcess (C04_asdict_ad_value). Two threads in the prologue's drain loop: C04_drain_race_counterexample (KeyError with the unguarded pop of the code as found) and C04_drain_guarded_safe (no KeyError, no flag lost, every schedule, for the guarded pop); the code now has the guarded pop (fix 4d302c5), pinned by the obligation cfg_pop_guarded. One thread at STATEMENT granularity against an arbitrary environment (Model/C04Fine.lean: the thread as a function of what it reads — _pmap at the copy, the table at the listing, the PIDs _pids_reused.pop() hands it, the answer at each Process(pid) / as_dict — so for every schedule of any number of threads and table changes at any point, also between add(pid) and as_dict): its prologue computes what the atomic prologue computes on the hybrid snapshot (C04_fine_prologue_atomic); yielded PIDs strictly ascending and from its listing, each yielded object is the one _pmap held for that PID at the copy (and not handed to it as recycled) or its own new one, only IndexError/KeyError(unguarded pop)/ValueError can escape (C04_fine_safety, C04_fine_no_keyerror for the code as it is); what it stores into _pmap maps PIDs of its listing to the copied or its own object for that very PID (C04_fine_publish: the guarantee every reader relies on); run to the end it yields every listed PID unless the world answered NoSuchProcess there (C04_fine_complete, for the repaired order or when it was handed no flagged PID). Proved counterexamples (replayed on the real code): L4 OverflowError for the pre-fix pid_exists, L19 flagged PID skipped, overlapping generators, cache_clear while suspended, ppid reuse check (these last four are the known findings C04-flagged-pid-skipped, C04-overlap-identity, C04-clear-while-suspended, C04-reuse-check-skips-pid), and the _pids_reused.pop() race of two threads for the unguarded pop (fixed in /repo by 4d302c5). Tied to the code by translator facts feeding proof obligations — cfg_good (range guard), cfg_reuse_attrs (the only as_dict name whose getter reaches _raise_if_pid_reused() is ppid: a getter gaining the call breaks the build, and the harness keeps the region of known finding C04-reuse-check-skips-pid pinned to ppid so the new behaviour is a failing input), cfg_no_access_attrs (exactly pid and create_time are answered from the object; C04_refines_sequential_literal states the refinement against the literal list), cfg_names_valid, cfg_pop_guarded; C04_noReuse_iff spells out the NoReuse hypothesis for the code as it is (attrs=None or a non-empty list without ppid) — and the prologue order, which selects the model the driver runs, and by a differential run of the real functions over a fake procfs incl. exhaustive short histories, the complete pid_exists table (front-end, both platform functions, windows between probe and read, bool/float arguments), attrs=[] (all names) on a complete fake /proc/<pid> with EACCES injection, and a deterministic bounded-pre-emption exploration of two threads using process_iter()/cache_clear()/is_running() at once (oracle from the statement; item-boundary schedules are also run through the Lean model, drain-loop steps through the Lean drain model, and EVERY generator run of every explored schedule — line, shared-bytecode and every-bytecode granularity — through the statement-granularity thread model fed with the values the real thread read: to-do list, yields and the published map must be equal); the whole-iteration sentence and the sentence 'an object whose PID is_running() found recycled is never yielded by an iteration that starts later' are also judged on the implementation's own outputs of every history (model-independent oracles; families inflight_flag / exhaustive_inflight span recycling x generator in flight x cache_clear()); process_iter is called in every spelling of its signature (no argument, attrs / ad_value positional, by keyword, defaults). The TEXT of /proc/<n>/status (seeded round 5, C04-5): _pslinux.pid_exists is also transcribed at byte level (Model/C04Status.lean: the lines of the file, the first one starting with Tgid:, its second field through int(), == with the argument; statement list pinned by the obligation cfg_tgid_scan) against the kernel's documented format (Spec/C04Status.lean: any own-key lines before the Tgid line, anything after it): for ANY id asked about and ANY thread-group id printed the scan answers whether the two NUMBERS are equal (C04_tgid_field_compared_as_number), the byte-level function equals the abstract one the other theorems speak about (C04_linux_pidExists_text_refines, C04_linux_pidExists_text_other), hence True exactly for listed PIDs and False for every thread id whatever its decimal looks like next to its process's (C04_linux_pidExists_text_iff, C04_thread_id_text_false); C04_tgid_prefix_match_counterexample shows what a textual prefix comparison would answer for thread 123 of process 1234. Correspondence: families tid_digits / status_text (ids related as decimal text: prefix, suffix, infix, extension, permutation; status files in ten layouts + random lines + texts outside the kernel's format), an exhaustive sweep of every ordered pair (thread-group id, thread id) over 15 such numbers, the byte-level model fed with the very bytes of the fake file.",
-    "level_note": "Partial: two threads: theorems cover the generator-level interleavings (Op.next of several generators), the drain loop, and — thread-locally, for every schedule — one thread at statement granularity against an arbitrary environment (safety, identity of the yielded objects w.r.t. the copy, the published map, completeness); the GLOBAL identity statement under two threads is not proved (it is false: known finding C04-overlap-identity) and the composition of several fine-grained threads into one trace is explored (<= 2 pre-emptions at line/shared-bytecode granularity), not proved. Identity is proved for sequential histories only (overlaps, cache_clear while suspended, ppid+recycled PID, flagged PID at iteration start are the four known findings, with proved counterexamples; the _pids_reused.pop() race found in the same round is fixed by 4d302c5); completeness at full strength is proved for the repaired prologue order only and refuted for the shipped one, for which the partial theorems (nothing flagged at the start) and the two-iteration theorem hold; `zombie` is carried by the kernel model but read only by asDictVals (per-getter outcomes fed by the harness), not by the history machine; every OSError of the status read is one outcome of the model (the harness injects ENOENT, EACCES and ESRCH). Trusted: Lean kernel + {propext, Classical.choice, Quot.sound}; the translator; the correspondence harness; atomicity (table changes between psutil's OS accesses and right after the listing); CPython generator finalisation and set iteration order; as_dict modelled by attribute kind.",
+    "level_text": "Machine-checked Lean 4 proofs over a model of pids()/pid_exists()/process_iter()/cache_clear()/is_running()'s cache side effect. For every table: pids() is the strictly ascending list of exactly the listed PIDs (C04_pids_sorted_exact, C04_pids_unique; byte level: C04_listing_exact); pid_exists(n) is a bool, True exactly for listed PIDs, for every int n and every well-formed table with threads, foreign processes and broken status files (C04_pidExists_iff). For EVERY history, overlapping generators and both prologue orders included: each generator yields strictly ascending PIDs without duplicates, all from the listing it took, and next() can only yield/stop/raise ValueError (invalid attrs)/IndexError (empty table) (C04_iter_ascending, C04_overlap_safety, C04_yield_was_listed); each next() visits the remaining listed PIDs in order and skips a PID only if it vanished (C04_iter_each_listed_once_repaired: full strength only for a configuration with the REPAIRED prologue order — not the shipped code; C04_iter_each_listed_once_partial for the code as it is when no PID is flagged at the start of the iteration; C04_iter_each_listed_Full_fails_shipped / C04_iteration_complete_Full_fails_shipped: the full clause is REFUTED for the shipped order on the L19 state); info keys are exactly the requested names (C04_info_keys). One WHOLE iteration as one sentence, for any continuation of the history (other generators advancing, table changes inside and between calls, cache_clear, is_running): the PIDs a generator yields are a subsequence of the ascending listing it took and every PID of that listing is yielded, or was absent from the table at one of its next() calls, or is still to be visited; once the generator is exhausted, yielded or vanished (C04_iteration_complete_repaired for the repaired prologue order only, C04_iteration_complete_partial for the code as it is when no PID is flagged at the start, C04_iteration_drained). 'Recycled -> replaced by a fresh object' for the SHIPPED order in its two-iteration form, from any reachable state, kernel events anywhere, any attrs (C04_flagged_iteration_skips: the iteration that starts while a cached PID is flagged never yields it and publishes a _pmap without it — the known finding C04-flagged-pid-skipped characterised in general; C04_uncached_iteration_fresh: an iteration that finds a listed PID uncached yields for it only a reference no object had before, an object of that PID; C04_recycled_replaced_two_iterations: both composed; C04_refines_sequential_from: from any idle reachable state — e.g. the one after the dropping iteration — the code equals the specification machine, so the fresh object is kept). The LIFETIME of a recycled-flag (seeded round 5): every operation other than the first next() of a generator — cache_clear(), next()/close() of generators in flight that republish their private table, is_running(), pids(), pid_exists() — keeps every flagged PID flagged (C04_flag_kept_by_every_other_op, C04_cache_clear_keeps_flags); once is_running() has found an object's PID recycled the PID stays flagged along ANY continuation in which no iteration starts (C04_found_recycled_stays_flagged), the iteration that starts next never yields that stale object, either prologue order, any attrs (C04_found_recycled_never_yielded_again), and for the shipped order iteration n drops the entry and n+1 yields a fresh object (C04_found_recycled_replaced); C04_clear_dropping_flags_counterexample shows what a cache_clear() that also emptied _pids_reused would do (stale object yielded forever); the frame is tied to the source by the obligations cfg_flag_set_ops / cfg_pmap_ops on the facts listing EVERY use of the module globals _pids_reused / _pmap in the package. Object <-> PID: in every reachable state, any configuration, the yielded reference is a live object whose pid is the yielded PID and no reference in _pmap / a suspended generator's map / to-do list dangles or is filed under another PID (C04_yield_object_pid, C04_object_pid_stable; invariant ObjInv). For every SEQUENTIAL history the whole output trace of the model — PIDs, object identities, info keys — equals that of a shared-cache specification machine (C04_refines_sequential, by an abstraction function), whose cache keeps an entry iff its PID is still listed and not flagged, yields the cached object else a fresh one, and is emptied by cache_clear (C04_start_cache, C04_spec_visit, C04_isRunning_flags, C04_cache_clear). The platform functions are covered branch by branch: _psposix.pid_exists (PID 0, ESRCH, EPERM, ok, OverflowError: C04_posix_pidExists_branches), _pslinux.pid_exists called on its own with ANY table changes between the kill probe and the status read (C04_linux_pidExists_two_instants: the answer is right for the table at the probe or at the read; C04_linux_pidExists_iff without changes; C04_platform_eq ties them to the front-end model); bool arguments are ints (C04_pidExists_bool), floats are pinned as outside the statement (C04_pidExists_float: TypeError for positive floats). as_dict's ad_value substitution: keys exactly the requested names, ad_value exactly where the getter raises AccessDenied/ZombieProcess (C04_asdict_ad_value). Two threads in the prologue's drain loop: C04_drain_race_counterexample (KeyError with the unguarded pop of the code as found) and C04_drain_guarded_safe (no KeyError, no flag lost, every schedule, for the guarded pop); the code now has the guarded pop (fix 4d302c5), pinned by the obligation cfg_pop_guarded. One thread at STATEMENT granularity against an arbitrary environment (Model/C04Fine.lean: the thread as a function of what it reads — _pmap at the copy, the table at the listing, the PIDs _pids_reused.pop() hands it, the answer at each Process(pid) / as_dict — so for every schedule of any number of threads and table changes at any point, also between add(pid) and as_dict): its prologue computes what the atomic prologue computes on the hybrid snapshot (C04_fine_prologue_atomic); yielded PIDs strictly ascending and from its listing, each yielded object is the one _pmap held for that PID at the copy (and not handed to it as recycled) or its own new one, only IndexError/KeyError(unguarded pop)/ValueError can escape (C04_fine_safety, C04_fine_no_keyerror for the code as it is); what it stores into _pmap maps PIDs of its listing to the copied or its own object for that very PID (C04_fine_publish: the guarantee every reader relies on); run to the end it yields every listed PID unless the world answered NoSuchProcess there (C04_fine_complete, for the repaired order or when it was handed no flagged PID). Proved counterexamples (replayed on the real code): L4 OverflowError for the pre-fix pid_exists, L19 flagged PID skipped, overlapping generators, cache_clear while suspended, ppid reuse check (these last four are the known findings C04-flagged-pid-skipped, C04-overlap-identity, C04-clear-while-suspended, C04-reuse-check-skips-pid), and the _pids_reused.pop() race of two threads for the unguarded pop (fixed in /repo by 4d302c5). Tied to the code by translator facts feeding proof obligations — cfg_good (range guard), cfg_reuse_attrs (the only as_dict name whose getter reaches _raise_if_pid_reused() is ppid: a getter gaining the call breaks the build, and the harness keeps the region of known finding C04-reuse-check-skips-pid pinned to ppid so the new behaviour is a failing input), cfg_no_access_attrs (exactly pid and create_time are answered from the object; C04_refines_sequential_literal states the refinement against the literal list), cfg_names_valid, cfg_pop_guarded; C04_noReuse_iff spells out the NoReuse hypothesis for the code as it is (attrs=None or a non-empty list without ppid) — and the prologue order, which selects the model the driver runs, and by a differential run of the real functions over a fake procfs incl. exhaustive short histories, the complete pid_exists table (front-end, both platform functions, windows between probe and read, bool/float arguments), attrs=[] (all names) on a complete fake /proc/<pid> with EACCES injection, and a deterministic bounded-pre-emption exploration of two threads using process_iter()/cache_clear()/is_running() at once (oracle from the statement; item-boundary schedules are also run through the Lean model, drain-loop steps through the Lean drain model, and EVERY generator run of every explored schedule — line, shared-bytecode and every-bytecode granularity — through the statement-granularity thread model fed with the values the real thread read: to-do list, yields and the published map must be equal); the whole-iteration sentence and the sentence 'an object whose PID is_running() found recycled is never yielded by an iteration that starts later' are also judged on the implementation's own outputs of every history (model-independent oracles; families inflight_flag / exhaustive_inflight span recycling x generator in flight x cache_clear()); process_iter is called in every spelling of its signature (no argument, attrs / ad_value positional, by keyword, defaults). The TEXT of /proc/<n>/status (seeded round 5, C04-5): _pslinux.pid_exists is also transcribed at byte level (Model/C04Status.lean: the lines of the file, the first one starting with Tgid:, its second field through int(), == with the argument; statement list pinned by the obligation cfg_tgid_scan) against the kernel's documented format (Spec/C04Status.lean: any own-key lines before the Tgid line, anything after it): for ANY id asked about and ANY thread-group id printed the scan answers whether the two NUMBERS are equal (C04_tgid_field_compared_as_number), the byte-level function equals the abstract one the other theorems speak about (C04_linux_pidExists_text_refines, C04_linux_pidExists_text_other), hence True exactly for listed PIDs and False for every thread id whatever its decimal looks like next to its process's (C04_linux_pidExists_text_iff, C04_thread_id_text_false); C04_tgid_prefix_match_counterexample shows what a textual prefix comparison would answer for thread 123 of process 1234. Correspondence: families tid_digits / status_text (ids related as decimal text: prefix, suffix, infix, extension, permutation; status files in ten layouts + random lines + texts outside the kernel's format), an exhaustive sweep of every ordered pair (thread-group id, thread id) over 15 such numbers, the byte-level model fed with the very bytes of the fake file. A listed process changing state DURING its own as_dict() scan (seeded round 5, C04-6): Model/C04Scan.lean takes one visit apart into the OS accesses of the getters inside the one oneshot() block (memoized readers keep what they read earlier in the block; wrap_exceptions turns EACCES / ESRCH / ENOENT into AccessDenied / ZombieProcess-or-NoSuchProcess by asking _is_zombie(); cmdline's empty-file probe; _readlink's fallback; the caller's own oneshot() around the cached object; the object created by the visit); for every requested names, every state of the process at every access instant (alive -> zombie -> gone), everything a zombie's or a live process's entries may answer, the visit skips the PID only if the process was GONE at one of the instants it looked at it, otherwise yields with exactly the requested keys, and no exception escapes (C04_scan_listed_never_skipped, _cfg for the extracted facts, C04_scan_held_listed_never_skipped, C04_scan_zombie_still_yielded); with nothing changing it is the one-step abstraction of the history machine (C04_scan_steady); composed with the statement-granularity thread model into one whole iteration (C04_fine_complete_scan); C04_scan_stale_probe_counterexample shows an _is_zombie() answering from the block's memoized stat skipping a still-listed zombie / letting FileNotFoundError out. Tied to the source by the obligations cfg_zombie_probe (_is_zombie makes its own read of stat, mentions no memoized reader), cfg_scan_code (every statement of wrap_exceptions' wrapper, _is_zombie, _raise_if_zombie, _readlink), cfg_memo_readers, cfg_scan_sources, and by families scan_life / exhaustive_scan / exhaustive_scan_held / scan_corpus: the real process_iter(attrs=names) with every access to /proc/<pid> hooked (state moved to the scheduled one before each access, the scheduled kernel flavour served, the access logged), compared with the model (outcome, ad_value flags, the access log) and judged by a model-independent oracle (in the table at every instant => yielded, the cached object, exactly the keys, also in the following iteration; no exception).",
+    "level_note": "Partial: two threads: theorems cover the generator-level interleavings (Op.next of several generators), the drain loop, and — thread-locally, for every schedule — one thread at statement granularity against an arbitrary environment (safety, identity of the yielded objects w.r.t. the copy, the published map, completeness); the GLOBAL identity statement under two threads is not proved (it is false: known finding C04-overlap-identity) and the composition of several fine-grained threads into one trace is explored (<= 2 pre-emptions at line/shared-bytecode granularity), not proved. Identity is proved for sequential histories only (overlaps, cache_clear while suspended, ppid+recycled PID, flagged PID at iteration start are the four known findings, with proved counterexamples; the _pids_reused.pop() race found in the same round is fixed by 4d302c5); completeness at full strength is proved for the repaired prologue order only and refuted for the shipped one, for which the partial theorems (nothing flagged at the start) and the two-iteration theorem hold; `zombie` is carried by the kernel model but read only by asDictVals (per-getter outcomes fed by the harness) and by the access-granularity visit model (Model/C04Scan.lean, one PID at a time), not by the history machine (C04_scan_steady ties the two when nothing changes during a visit); every OSError of the status read is one outcome of the model (the harness injects ENOENT, EACCES and ESRCH). Trusted: Lean kernel + {propext, Classical.choice, Quot.sound}; the translator; the correspondence harness; atomicity (table changes between psutil's OS accesses and right after the listing); CPython generator finalisation and set iteration order; as_dict modelled by attribute kind.",
     "technique": "Lean 4 generator state machine + refinement to a shared-cache specification by an abstraction function, invariants by induction over histories, a statement-granularity thread model quantified over everything the thread reads (rely/guarantee), translator-fed proof obligation, differential correspondence over a fake procfs with exhaustive short histories, bounded-pre-emption schedule exploration of real threads (sys.settrace baton scheduler) tied to the Lean model at item granularity",
     "design_ref": "DESIGN.md §5 C04",
 }
@@ -402,6 +405,8 @@ def facts(snap, F):
     F.try_add("tgidScan", "List String", lambda: extract.lean_list(_tgid_scan(linux), extract.lean_str),
               "every statement of _pslinux.pid_exists (depth:statement; the scan of /proc/<pid>/status for the Tgid: line, "
               "the field read with int() and compared with ==, the fallback to the listing)")
+    # seeded round 5c: the as_dict scan at the granularity of its OS accesses (Model/C04Scan.lean)
+    c04_scan.facts(snap, F, init, linux, valid, lambda: _no_access(init))
 
 
 # ------------------------------------------------------------------------------ simulated kernel (mirrors Kernel.apply)
@@ -684,7 +689,9 @@ class Impl:
                 elif x["status"] == "notgid":
                     files["status"] = status_bytes(x["pid"], x["pid"], with_tgid=False)
                 if self.full and x["status"] == "ok":
-                    files = c04_fullproc.files_for(x["pid"], files["stat"], x["zombie"])
+                    files = c04_fullproc.files_for(x["pid"], files["stat"], x["zombie"],
+                                                   keep_content=getattr(self, "zombie_keeps_content", False),
+                                                   light=getattr(self, "zombie_keeps_content", False))
                 self._install(str(x["pid"]), files)
             elif act == "mkthr":
                 self._install(str(x["tid"]), {"stat": stat_bytes(x["tid"], x["start"], "S"),
@@ -2312,8 +2319,9 @@ def correspond(ctx, res):
         res.rule = ("histories of kernel events and pids/pid_exists/process_iter/next/close/cache_clear/"
                     "is_running ops from 18 clause-directed families (PRNG from VERIF_SEED; process_iter called in every spelling of its signature), the lead witnesses, "
                     "an exhaustive sweep of short macro-step words around one recycled PID, the complete "
-                    "pid_exists table (every kind of id × every boundary argument) and byte-level directory "
-                    "listings; non-trivial = an object is yielded again / a PID gets a new object / generators "
+                    "pid_exists table (every kind of id × every boundary argument), byte-level directory "
+                    "listings, and single visits of process_iter(attrs=names) with the process changing state between the OS "
+                    "accesses of its as_dict scan (every one-way life over 5 instants x zombie flavour x 1-2 names, exhaustively); non-trivial = an object is yielded again / a PID gets a new object / generators "
                     "overlap / table changes right after a listing / info dict / pid_exists True or out of range / "
                     "cache_clear / is_running False; distinct = distinct op sequences")
         hists, tags = [], []
@@ -2368,6 +2376,9 @@ def correspond(ctx, res):
                             "status-file layouts in rotation (%d histories)" % n_digits)
         total_lines += listing_cases(ctx, impl, res)
         total_lines += attrs_all_cases(ctx, impl, res)
+        # the visit of one PID at the granularity of as_dict's OS accesses: the process turns zombie / is reaped between two
+        # reads of the scan, every flavour of what a zombie's files give (Model/C04Scan.lean, seeded round 5c)
+        total_lines += c04_scan.scan_cases(ctx, impl, res)
         res.extra["driver_lines"] = total_lines
         # two threads at once: deterministic bounded-pre-emption exploration (model-independent oracle + the Lean
         # model on item-boundary schedules + the Lean drain model on the drain-loop steps)
@@ -2453,6 +2464,19 @@ def _first_spec_failure(ctx, impl, hist):
 
 
 def shrink(ctx, d):
+    if "scan_case" in d["input"]:
+        impl = Impl(ctx)
+        try:
+            small = c04_scan.shrink_case(ctx, impl, d["input"]["scan_case"])
+            obs = c04_scan.run_case(impl, small)
+            m = ctx.driver().batch([c04_scan.driver_line(small, obs)])[0]
+            js = [j for j in c04_scan.judge_case(small, obs, m) if j[0] == "spec"]
+            if js:
+                _, note, iv, mv, spec = js[0]
+                return dict(d, input=dict(d["input"], scan_case=small, source="shrunk"), impl=iv, model=mv, spec=spec, note=note)
+        finally:
+            impl.close()
+        return d
     hist = d["input"].get("history")
     if not hist or "preempt" in d["input"]:
         return d
@@ -2484,6 +2508,12 @@ def replay(ctx, rp, res):
     if "preempt" in inp:
         from harness.props import c04_preempt
         return c04_preempt.replay(ctx, rp, res)
+    if "scan_case" in inp:
+        impl = Impl(ctx)
+        try:
+            return c04_scan.still_fails(ctx, impl, inp["scan_case"])
+        finally:
+            impl.close()
     impl = Impl(ctx)
     try:
         if inp.get("history"):
